@@ -122,12 +122,7 @@ fn inner_file_handler(
 
 fn blacklist_check(request: &Request, state: Arc<AppState>) -> Option<Response> {
     // Return error 403 if the address was blacklisted
-    if state
-        .config
-        .blacklist
-        .list
-        .contains(&request.address.origin_addr)
-    {
+    if is_blacklisted(request, &state) {
         state.logger.warn(format!(
             "{}: Blacklisted IP attempted to request {}",
             request.address, request.uri
@@ -140,6 +135,21 @@ fn blacklist_check(request: &Request, state: Arc<AppState>) -> Option<Response> 
     }
 
     None
+}
+
+/// Checks whether the request comes from, or is forwarded on behalf of, a blacklisted address.
+///
+/// The address the connection was actually made from is checked as well as the forwarded origin address, since
+///   the latter is taken from the `X-Forwarded-For` header and can be set to anything by the client.
+pub(crate) fn is_blacklisted(request: &Request, state: &AppState) -> bool {
+    let blacklist = &state.config.blacklist.list;
+
+    blacklist.contains(&request.address.origin_addr)
+        || request
+            .address
+            .proxies
+            .last()
+            .map_or(false, |peer| blacklist.contains(peer))
 }
 
 fn cache_check(request: &Request, state: Arc<AppState>, host: usize) -> Option<Response> {
